@@ -114,25 +114,28 @@ Section Machine.
         end
     end.
 
-  (* addMultiSegmentPayload.  targetLength == 0: decode a frame header from THIS payload alone (a first part shorter
-     than a header is an error: abort); append; when the accumulated length EQUALS the target: reset, decode one frame
-     from the accumulated bytes (bytes left over after that frame are dropped), deliver.  An accumulation that grows
-     past the target is never delivered and never reset (the comparison is ==); a negative target likewise. *)
-  Definition add_multi_go (r : role) (st : conn) (p : list Z) (tgt : Z) : conn * list F * outcome :=
-    let acc' := c_acc st ++ p in
-    if tgt =? zlen acc' then
+  (* addMultiSegmentPayload (as of /repo 46f0253).  Append the payload first.  If no target is known yet and at least
+     FrameHeaderLengthV3AndHigher bytes have been accumulated, decode a frame header from the ACCUMULATED bytes (the
+     header may itself be spread over several parts) and learn targetLength = int(9 + BodyLength); a header that does
+     not decode aborts the connection (the accumulated bytes stay).  When targetLength != 0 and the accumulated length
+     EQUALS it: reset, decode one frame from the accumulated bytes (bytes left over after that frame are dropped),
+     deliver.  Otherwise keep accumulating: an accumulation that grows past the target is never delivered and never
+     reset (the comparison is ==); a negative target likewise.  A zero-length part changes nothing at any point. *)
+  Definition add_multi_go (r : role) (st : conn) (acc' : list Z) (tgt : Z) : conn * list F * outcome :=
+    if negb (tgt =? 0) && (tgt =? zlen acc') then
       match read_frame r (set_acc st 0 []) acc' with (st1, fs, o, _) => (st1, fs, o) end
     else (set_acc st tgt acc', [], RxOk).
 
   Definition add_multi (r : role) (st : conn) (p : list Z) : conn * list F * outcome :=
-    if c_target st =? 0 then
-      match fc_dec_hdr fc p with
-      | DOk h _ => add_multi_go r st p (fc_target fc h)
-      | DErr => (st, [], RxAbort)
-      | DPanic => (st, [], RxPanic)
-      | DFuel => (st, [], RxStuck)
+    let acc' := c_acc st ++ p in
+    if (c_target st =? 0) && (fc_hlen fc <=? zlen acc') then
+      match fc_dec_hdr fc acc' with
+      | DOk h _ => add_multi_go r st acc' (fc_target fc h)
+      | DErr => (set_acc st 0 acc', [], RxAbort)
+      | DPanic => (set_acc st 0 acc', [], RxPanic)
+      | DFuel => (set_acc st 0 acc', [], RxStuck)
       end
-    else add_multi_go r st p (c_target st).
+    else add_multi_go r st acc' (c_target st).
 
   (* readSegment(source) *)
   Definition read_segment (r : role) (st : conn) (src : list Z) : conn * list F * outcome * list Z :=
@@ -285,27 +288,23 @@ Inductive wire_seg := WSelf (payload : list Z) | WPart (payload : list Z).
 Definition ws_self (w : wire_seg) : bool := match w with WSelf _ => true | WPart _ => false end.
 Definition ws_payload (w : wire_seg) : list Z := match w with WSelf p | WPart p => p end.
 
-Definition part_ok (p : list Z) : Prop := 0 < zlen p <= max_payload.
+Definition part_ok (p : list Z) : Prop := zlen p <= max_payload.
 
-(* [segmentation_with P envs ss]: the envelopes envs, in order, are carried by the segments ss:
+(* [segmentation envs ss]: the envelopes envs, in order, are carried by the segments ss - every segmentation the
+   specification allows:
    - a self-contained segment carries any number of WHOLE envelopes, total at most 131071 bytes;
-   - one envelope (of any size) may be cut at any points into >= 1 non-empty parts of at most 131071 bytes, each part
-     the payload of a non-self-contained segment, in order; P constrains the first part;
+   - one envelope (of any size) may be cut at ANY points - inside its 9-byte header as well - into any number of parts
+     of at most 131071 bytes, each part the payload of a non-self-contained segment, in order; parts may be EMPTY (the
+     segment format allows a zero-length payload), before, between and after the others;
    - in any mixture.  No bound on counts or sizes. *)
-Inductive segmentation_with (P : list Z -> Prop) : list (list Z) -> list wire_seg -> Prop :=
-| sg_nil : segmentation_with P [] []
+Inductive segmentation : list (list Z) -> list wire_seg -> Prop :=
+| sg_nil : segmentation [] []
 | sg_self es1 es2 ss :
-    zlen (concat es1) <= max_payload -> segmentation_with P es2 ss ->
-    segmentation_with P (es1 ++ es2) (WSelf (concat es1) :: ss)
-| sg_multi e p0 ps es ss :
-    concat (p0 :: ps) = e -> Forall part_ok (p0 :: ps) -> P p0 -> segmentation_with P es ss ->
-    segmentation_with P (e :: es) (map WPart (p0 :: ps) ++ ss).
-
-(* every segmentation the specification allows *)
-Definition segmentation : list (list Z) -> list wire_seg -> Prop := segmentation_with (fun _ => True).
-(* ... whose first part of every split envelope holds the complete envelope header *)
-Definition segmentation_hdr (hlen : Z) : list (list Z) -> list wire_seg -> Prop :=
-  segmentation_with (fun p0 => hlen <= zlen p0).
+    zlen (concat es1) <= max_payload -> segmentation es2 ss ->
+    segmentation (es1 ++ es2) (WSelf (concat es1) :: ss)
+| sg_multi e ps es ss :
+    concat ps = e -> Forall part_ok ps -> segmentation es ss ->
+    segmentation (e :: es) (map WPart ps ++ ss).
 
 (* the bytes of a list of segments *)
 Inductive seg_encoded {C} (sc : scodec C) (c : C) : list wire_seg -> list (list Z) -> Prop :=
